@@ -65,6 +65,25 @@ LongAt(j) ==
       it    == NItem("long_prefix_scheduled", c, <<>>, -1)
       sched == [i \in 1..(nBefore + 1) |-> [ord |-> 0, rc |-> 0, hex |-> BytesToHex(IF i <= nBefore THEN Prng(K("longc", <<j, i>>), 16) ELSE tgt)]]
   IN  [it EXCEPT !.in = [@ EXCEPT !.shim = [schedule |-> sched], !.timeout_ms = 120000]]
+\* NEAR MISSES: the prefix is the beginning of the candidate's own address with exactly ONE digit changed, at every
+\* digit position q of a 7-, 18- and 40-digit prefix; the schedule grants that candidate and then refuses: nothing may be
+\* printed (every digit of the prefix counts, wherever it stands)
+NearLens == <<7, 18, 40>>
+NNear == 7 + 18 + 40
+NearAt(j) ==
+  LET li   == IF j <= 7 THEN 1 ELSE IF j <= 25 THEN 2 ELSE 3
+      L    == NearLens[li]
+      q    == IF li = 1 THEN j ELSE IF li = 2 THEN j - 7 ELSE j - 25
+      cfg0 == [vanity |-> TRUE, threads |-> 0, nibbles |-> <<>>, vpassword |-> <<>>, words |-> 12, comps |-> ForIndex(<<>>)]
+      cnd  == Prng(K("nearc", <<li>>), 16)
+      hexd == HexLower(AddressOfPhrase(cfg0, PhraseOfEntropy(cnd)))
+      alt(c) == IF c = 102 THEN 48 ELSE IF c = 57 THEN 97 ELSE c + 1          \* the next hexadecimal digit
+      pre  == "0x" \o Utf8ToStr([i \in 1..L |-> IF i = q THEN alt(hexd[i]) ELSE hexd[i]])
+      c    == New("12", pre, "", "", "", IF j % 2 = 0 THEN "0" ELSE "1")
+      it   == NItem("near_miss_scheduled", c, <<>>, -1)
+      \* main generates the candidate; the next request (inline: ordinal 0, threaded: ordinal 1) is refused
+      sched == <<[ord |-> 0, rc |-> 0, hex |-> BytesToHex(cnd)], [ord |-> IF j % 2 = 0 THEN 0 ELSE 1, rc |-> 0 - 1, hex |-> ""]>>
+  IN  [it EXCEPT !.in = [@ EXCEPT !.shim = [schedule |-> sched], !.timeout_ms = 60000]]
 O1 == NSingle
 O2 == O1 + NTwo
 O3 == O2 + NThree
@@ -72,7 +91,8 @@ O4 == O3 + NVariants
 O5 == O4 + NRepeat
 O6 == O5 + Len(Bad)
 O7 == O6 + NEveryChar
-Count == O7 + NLong
+O8 == O7 + NLong
+Count == O8 + NNear
 ItemAt(g) ==
   IF g <= O1 THEN SingleAt(g)
   ELSE IF g <= O2 THEN TwoAt(g - O1)
@@ -81,7 +101,8 @@ ItemAt(g) ==
   ELSE IF g <= O5 THEN RepeatAt(g - O4)
   ELSE IF g <= O6 THEN BadAt(g - O5)
   ELSE IF g <= O7 THEN EveryCharAt(g - O6)
-  ELSE LongAt(g - O7)
+  ELSE IF g <= O8 THEN LongAt(g - O7)
+  ELSE NearAt(g - O8)
 Histories == 0
 VARIABLE n
 INSTANCE GenBase
